@@ -133,7 +133,7 @@ fn main() {
         for _ in 0..budget { cases.push(gen(&mut r, 3)); }
         for v in &cases {
             if let Some(why) = check(v) {
-                let w = json!({"kind": "ser", "value": serde_json::to_value(v).unwrap(), "why": why});
+                let w = json!({"kind": "ser", "value_json": serde_json::to_string(v).unwrap(), "why": why});
                 let s = serde_json::to_string_pretty(&w).unwrap();
                 if let Some(out) = a.get(4) { std::fs::write(out, &s).unwrap(); }
                 println!("FOUND {s}");
@@ -145,7 +145,10 @@ fn main() {
     }
     let f: serde_json::Value = serde_json::from_str(&std::fs::read_to_string(&a[1]).unwrap()).unwrap();
     let w = if f.get("witness").is_some() && !f["witness"].is_null() { &f["witness"] } else { &f };
-    let v: V = serde_json::from_value(w["value"].clone()).unwrap();
+    let v: V = match w.get("value_json").and_then(|x| x.as_str()) {
+        Some(s) => serde_json::from_str(s).unwrap(),
+        None => serde_json::from_value(w["value"].clone()).unwrap(),
+    };
     match check(&v) {
         Some(why) => { println!("value = {v:?}\n{why}\nREPLAY: FAILS on the real code"); std::process::exit(1) }
         None => println!("value = {v:?}\nREPLAY: passes on the real code"),
